@@ -257,6 +257,21 @@ def c07_own(ctx):
             out.append(ok('ORD-C07-own', 'drop', 'Drop for SchedulerFuture has no effect', fn=d.name))
     else:
         out.append(ok('ORD-C07-own', 'drop', 'SchedulerFuture has no Drop impl'))
+    # while an operation is suspended (queue parked) the scheduler holds no reference to the queue: the wakers handed to the operation's
+    # future are what keeps the queue, the suspended job and everything behind it alive once the caller has dropped its handles
+    for wk in ('desync::WakeQueue', 'desync::WakeThread'):
+        a = F.adts.get(wk)
+        key = '%s|holds-queue-strongly' % wk.split('::')[-1]
+        if not a:
+            out.append(undecided('ORD-C07-own', key, 'waker type not found'))
+            continue
+        tys = [clean_ty(f['ty']) for f in a['variants'][0]['fields']]
+        if any(t.startswith('alloc::sync::Arc<desync::JobQueue') for t in tys):
+            out.append(ok('ORD-C07-own', key, 'the waker owns an Arc<JobQueue>'))
+        elif any('JobQueue' in t for t in tys):
+            out.append(bad('ORD-C07-own', key, 'the waker no longer owns its queue (%s): a suspended operation whose caller dropped the returned future and the queue handle is freed with its queue, and the wake-up finds nothing' % ', '.join(t for t in tys if 'JobQueue' in t)))
+        else:
+            out.append(undecided('ORD-C07-own', key, 'no field of the waker refers to a JobQueue'))
     return out
 
 
@@ -1582,6 +1597,30 @@ def c16(ctx):
             out.append(ok(R, key, 'on_drop (which releases the Desync) is only invoked inside a job on the disposal queue', fn=dr.name))
         else:
             out.append(bad(R, key, 'on_drop is invoked directly in PipeStream::drop (a Desync could be dropped from inside its own job or under the stream lock), or not at all', fn=dr.name))
+        # the producer is woken (which runs PipeContext::poll, and with it a temporary upgrade of the Weak<Desync>, on this thread and
+        # under the stream lock) before the job that releases the pipe's own Arc<Desync> is queued: otherwise the temporary can be the
+        # last strong reference and Desync::drop runs here, under the stream lock, waiting for a poll job that needs that lock
+        key = 'PipeStream::drop|wake-before-release'
+
+        def blocks_reaching(pred):
+            out_ = []
+            for s_ in g.sites.get(dr.name, []):
+                if pred(s_, dr):
+                    out_.append(s_.bb)
+                for c_ in s_.targets:
+                    cf = F.fn(c_)
+                    if cf and cf.is_closure and any(pred(s2, cf) for s2 in g.sites.get(cf.name, [])):
+                        out_.append(s_.bb)
+            return out_
+        wakes_ = blocks_reaching(lambda s_, f_: s_.kind == 'wake')
+        rel_ = blocks_reaching(lambda s_, f_: (s_.t['func'].get('fn') or '').endswith('Desync::desync'))
+        if not wakes_ or not rel_:
+            out.append(undecided(R, key, 'wake of the close notifier or queuing of on_drop not found in PipeStream::drop'))
+        elif all(any(w_ != r_ and dominates(dr, w_, r_) for w_ in wakes_) for r_ in rel_):
+            out.append(ok(R, key, 'the close notifier is woken before on_drop is queued on the disposal queue', fn=dr.name))
+        else:
+            out.append(bad(R, key, 'on_drop is queued on the disposal queue before the close notifier is woken: the poll that the wake runs on this thread can then hold the last Arc<Desync> '
+                           'and drop the Desync under the stream lock (it waits for the closing poll job, which needs that lock)', fn=dr.name))
     return out
 
 
